@@ -24,13 +24,14 @@ or that are NAMED like a built-in (`org.verif.Id.Ping`, `.Introspect`, `.GetMana
 import xml.etree.ElementTree as ET
 
 STREAMS = ['history-fixed-universe', 'history-random-universe', 'history-enumerated', 'history-client-connection',
-           'managed-values']
+           'history-handlers', 'managed-values']
 THEOREMS = ['exports_eq_spec', 'children_eq_spec', 'children_nil_iff', 'introspect_fails_iff_nothing_there',
             'interface_names_complete', 'interface_dict_complete', 'table_objects_sendable',
             'managed_entries_abstract', 'export_succeeds_if_well_typed', 'managed_eq_spec', 'managed_fails_iff', 'classify_ordinary_iff', 'unknown_object_iff_not_exported',
             'ping_answered_everywhere', 'export_signals', 'strictlyBelow_iff_text', 'parse_render_inverse',
             'objectPath_alphabet_eq_source', 'orig_introspect_root_lists_empty_child',
-            'orig_managed_reports_prefix_sibling', 'orig_failed_export_stays_visible']
+            'orig_managed_reports_prefix_sibling', 'orig_failed_export_stays_visible',
+            'handlers_independent', 'handler_call_is_local']
 TRUSTED_BASE = [
     'Python str.startswith/endswith/partition/slicing, sorted() on str, dict insertion order and key '
     'overwrite (mirrored in Obj/Tree.lean, validated by the streams)',
@@ -1047,18 +1048,292 @@ def enumerated(max_len):
             yield make_hist(uni, ops)
 
 
+_RAN = []               # (runner, stream, history) of every case of this process, in order (see `stabilise`)
+
+
+def log_case(runner, stream, hist):
+    _CASE_NO[id(hist)] = len(_RAN)
+    _RAN.append((runner, stream, hist))
+
+
 def run_batch(ctx, stream, hists, judge=True, client=False):
     lines, expect = [], []
     for hist in hists:
         if ctx.time_left() < 5:
             ctx.note('time budget reached in stream %s' % stream)
             break
+        if 'warm' not in hist and first_use_order():
+            hist['warm'] = first_use_order()       # what the process-wide classes had seen when this case began
+        log_case('client' if client else 'single', stream, hist)
         ne = run_history(ctx, stream, hist, lines, expect, judge=judge, client=client)
         ctx.case(stream, sample={'universe': hist['universe'], 'ops': hist['ops']},
                  nontrivial=ne > 0 and any(o[0] == 'export' for o in hist['ops']))
         ctx.stat('history-len=%d' % (len(hist['ops']) // 5 * 5))
         ctx.stat('universe-size=%d' % len(hist['universe']))
     compare(ctx, lines, expect)
+
+
+# =========================================================================== stream `history-handlers`
+# Several handlers alive in ONE scenario (each with its own connection; some are real DBusClientConnections), calls on
+# them interleaved, the SAME instances exported on several of them, unexported and exported again, exports that fail
+# half-way (getAllProperties raising, an invalid path) followed by good ones.  After every call EVERY handler is asked
+# everything; each handler is judged against the calls made on IT (the statement, per connection) and a call on one
+# handler must not put a message on another handler's connection.  Model: `Tree.Multi` (one table per handler).
+# ops: ['export', k, path, kind, vals]   a new instance, exported on handler k
+#      ['unexport', k, path]
+#      ['again', k, ident]               the existing instance `ident` exported on handler k (whatever it is now: exported
+#                                        there, exported on another handler, unexported, never successfully exported)
+#      ['export-raising', k, path, vals, n]   a new instance whose getAllProperties raises after n good answers
+#      ['export-badpath', k, path, bad, vals] a new instance that reports the invalid path `bad` during the call
+# instances are numbered 1, 2, ... in the order of the ops that create them (export, export-raising, export-badpath).
+BAD_SUFFIX = ['/', '//x', '/x-y', '/x y', '/é']
+
+
+def gen_handlers_history(rng, universe, length, nh):
+    ops = []
+    live = [dict() for _ in range(nh)]          # per handler: path -> ident
+    made = {}                                   # ident -> (path, kind, can be exported)
+    nxt = [1]
+
+    def new_ident(path, kind, good):
+        i = nxt[0]
+        nxt[0] += 1
+        made[i] = (path, kind, good)
+        return i
+
+    def pick_handler():
+        sizes = [len(x) for x in live]
+        if rng.random() < 0.6 and len(set(sizes)) > 1:
+            return sizes.index(min(sizes))      # towards EQUAL export counts on the handlers
+        return rng.randrange(nh)
+
+    def again(k, i):
+        ops.append(['again', k, i])
+        if made[i][2]:
+            live[k][made[i][0]] = i
+
+    burst = rng.randrange(0, max(2, len(universe) // 2))
+    for n in range(length):
+        k = pick_handler()
+        others = [j for j in range(nh) if j != k]
+        r = 0.99 if n < burst else rng.random()
+        elsewhere = sorted(i for j in others for i in live[j].values() if live[k].get(made[i][0]) != i)
+        idle = sorted(i for i in made if all(i not in x.values() for x in live))
+        if live[k] and r < 0.17:
+            p = rng.choice(sorted(live[k]))
+            ops.append(['unexport', k, p])
+            del live[k][p]
+        elif r < 0.21:
+            p = rng.choice(universe)
+            ops.append(['unexport', k, p])
+            live[k].pop(p, None)
+        elif live[k] and r < 0.27:
+            again(k, rng.choice(sorted(live[k].values())))          # the same instance, still exported there
+        elif elsewhere and r < 0.41:
+            again(k, rng.choice(elsewhere))                         # an instance exported on another handler
+        elif idle and r < 0.52:
+            again(k, rng.choice(idle))                              # an unexported / never exported instance
+        elif r < 0.59:
+            p = rng.choice(universe)
+            vals = gen_vals(rng)
+            ops.append(['export-raising', k, p, vals, rng.randrange(0, 3)])
+            new_ident(p, 'KRaise', sendable('KRaise', 0, vals))
+        elif r < 0.65:
+            p = rng.choice([q for q in universe if q != '/'] or universe)
+            vals = gen_vals(rng)
+            bad = ('' if p == '/' else p) + rng.choice(BAD_SUFFIX)
+            ops.append(['export-badpath', k, p, '//x' if bad == '/' else bad, vals])
+            new_ident(p, 'KPath', sendable('KPath', 0, vals))
+        else:
+            q = rng.random()
+            theirs = sorted(p for j in others for p in live[j] if p not in live[k])
+            free = [p for p in universe if p not in live[k]]
+            if theirs and q < 0.45:
+                p = rng.choice(theirs)                              # a path another handler has: same path, other object
+            elif free and q < 0.9:
+                p = rng.choice(free)
+            else:
+                p = rng.choice(universe)                            # possibly over a live object
+            kind = rng.choice(KINDS + ['KRaise', 'KPath'])
+            vals = gen_vals(rng)
+            ops.append(['export', k, p, kind, vals])
+            i = new_ident(p, kind, sendable(kind, 0, vals))
+            if made[i][2]:
+                live[k][p] = i
+    return ops
+
+
+def handlers_hist(universe, ops, handlers, rng=None, fresh=False, variant=0, first=None):
+    h = make_hist(universe, ops, rng)
+    h['handlers'] = handlers
+    if fresh:
+        h['fresh'] = True
+        if variant:
+            h['variant'] = variant
+    if first:
+        h['first'] = list(first)
+    return h
+
+
+def run_handlers_history(ctx, stream, hist, lines, expect, judge=True):
+    if hist.get('fresh'):
+        objs = Objects(build_classes(hist.get('variant', 0)))
+    else:
+        objs = Objects()
+        if hist.get('warm'):
+            objs.warm(hist['warm'])
+    objs.warm(hist.get('first', []))
+    worlds = [World(client=(t == 'c'), objects=objs, index=j) for j, t in enumerate(hist['handlers'])]
+    universe = hist['universe']
+    queries = list(universe) + list(hist.get('neighbours', []))
+    lines.append('reset')
+    expect.append((stream, hist, 0, ['reset'], 'ok', None))
+    nonempty_answers = 0
+    rot = 0
+    for step_no, op in enumerate(hist['ops'], 1):
+        k = op[1]
+        if k >= len(worlds):
+            continue
+        w = worlds[k]
+        for x in worlds:
+            x.take()
+        line = None
+        failing = False
+        if op[0] == 'export':
+            ident = objs.make(op[2], op[3], op[4])
+            res = w.export_ident(ident)
+            line = export_line(w, ident)
+            ctx.stat('op=export' + ('' if objs.registry[ident][4] else '-unsendable'))
+            ctx.stat('kind=' + op[3])
+        elif op[0] == 'again':
+            ident = op[2]
+            if ident not in objs.objs:                     # no such instance (a shrunk replay): skip the step
+                continue
+            path = objs.registry[ident][1]
+            here = w.exported.get(path) == ident
+            there = any(x.exported.get(path) == ident for x in worlds if x is not w)
+            ctx.stat('op=again-' + ('same-handler' if here else 'other-handler' if there else 'not-exported'))
+            res = w.export_ident(ident)
+            line = export_line(w, ident)
+        elif op[0] == 'export-raising':
+            ident = objs.make(op[2], 'KRaise', op[3])
+            res = w.export_ident(ident, fail=('raise', op[4]))
+            line = export_line(w, ident, ok=False)
+            failing = True
+            ctx.stat('op=export-raising' + ('-over-live' if op[2] in w.exported else ''))
+        elif op[0] == 'export-badpath':
+            ident = objs.make(op[2], 'KPath', op[4])
+            res = w.export_ident(ident, fail=('path', op[3]))
+            line = export_line(w, ident, ok=False, path=op[3])
+            failing = True
+            ctx.stat('op=export-badpath')
+        else:
+            res = w.unexport(op[2])
+            line = 'unexport ' + hx(op[2])
+            ctx.stat('op=unexport' + ('' if res[0] is not None else '-not-exported'))
+        lines.append('handler %d' % k)
+        expect.append((stream, hist, step_no, ['handler'], 'ok', k))
+        lines.append(line)
+        expect.append((stream, hist, step_no, ['signals'], canon_signals(w, res[1], res[2]), k))
+        # the announcement belongs to the connection the call was made on: nothing may appear on another one
+        stray = [(j, x.remote_view(x.take())) for j, x in enumerate(worlds) if x is not w]
+        stray = [(j, m) for j, m in stray if m]
+        if judge and stray and not any(x.tainted for x in worlds):
+            j, msgs = stray[0]
+            ctx.violation('announced-on-other-connection',
+                          'an export / unexport call on one handler sends a message on ANOTHER handler\'s connection',
+                          case_input(hist, step_no, ['signals'], w),
+                          observed={'connection': j, 'messages': canon_signals(worlds[j], None, msgs)}, expected='no message there')
+            worlds[j].tainted = True
+        if judge:
+            judge_step(ctx, w, hist, step_no, op, res, is_export=op[0] != 'unexport',
+                       path=op[2] if op[0] == 'unexport' else None, failing=failing)
+        for x in worlds:
+            x.churn(step_no)
+        sizes = [len(x.exported) for x in worlds]
+        ctx.stat('handlers-equal-counts=%s' % ('yes' if len(set(sizes)) == 1 and sizes[0] else 'no'))
+        shared = sum(1 for x in worlds for p, i in x.exported.items()
+                     if any(y is not x and y.exported.get(p) == i for y in worlds))
+        ctx.stat('instance-on-two-handlers=%s' % ('yes' if shared else 'no'))
+        # every handler is asked everything after every call
+        for j, x in enumerate(worlds):
+            lines.append('handler %d' % j)
+            expect.append((stream, hist, step_no, ['handler'], 'ok', j))
+            lines.append('keys')
+            expect.append((stream, hist, step_no, ['keys'], 'keys ' + strs(list(x.h.exports.keys())), j))
+            ne, rot = query_all(ctx, stream, x, hist, step_no, queries, lines, expect, judge, rot)
+            nonempty_answers += ne
+    ctx.impl_trace()
+    return nonempty_answers
+
+
+def run_handlers(ctx, stream, hists, judge=True):
+    lines, expect = [], []
+    for hist in hists:
+        if ctx.time_left() < 5:
+            ctx.note('time budget reached in stream %s' % stream)
+            break
+        if not hist.get('fresh') and 'warm' not in hist and first_use_order():
+            hist['warm'] = first_use_order()
+        log_case('handlers', stream, hist)
+        ne = run_handlers_history(ctx, stream, hist, lines, expect, judge=judge)
+        sample = {k: hist[k] for k in ('universe', 'ops', 'handlers', 'fresh', 'variant', 'first') if k in hist}
+        ctx.case(stream, sample=sample, nontrivial=ne > 0 and any(o[0] in ('export', 'again') for o in hist['ops']))
+        ctx.stat('handlers=%s' % ''.join(hist['handlers']))
+        ctx.stat('family=%s' % ('fresh-v%d' % hist.get('variant', 0) if hist.get('fresh') else 'process-wide'))
+        if hist.get('first'):
+            ctx.stat('first-use=%s' % '>'.join(hist['first']))
+    compare(ctx, lines, expect)
+
+
+_VALS = {'label': 'x', 'secret': 0, 'level': 1, 'count': 7}
+
+
+def scripted_handlers():
+    """The shapes of STATE_AUDIT G6, deterministic."""
+    uni = ['/', '/a', '/a/b', '/a/bc']
+    v = dict(_VALS)
+    out = []
+    # two handlers with EQUAL export counts and different paths beneath /a; swap; empty one of them
+    ops = [['export', 0, '/a/b', 'KAB', v], ['export', 1, '/a/bc', 'KA', v], ['unexport', 0, '/a/b'],
+           ['export', 0, '/a/bc', 'Base', v], ['unexport', 1, '/a/bc'], ['export', 1, '/a/b', 'KABC', v],
+           ['export', 0, '/', 'KFalse', v], ['export', 1, '/', 'KLen', v], ['unexport', 0, '/a/bc'], ['unexport', 1, '/']]
+    # the same instance on two handlers, unexported on one, re-exported; failed exports in between must change nothing
+    ops2 = [['export', 0, '/a/b', 'KAB', v], ['again', 1, 1], ['unexport', 1, '/a/b'], ['again', 0, 1],
+            ['unexport', 0, '/a/b'], ['again', 0, 1], ['export-raising', 1, '/a/b', v, 1], ['again', 1, 1],
+            ['export-badpath', 0, '/a/b', '/a/b//x', v], ['export-raising', 0, '/a/b', v, 0], ['again', 1, 2],
+            ['export', 0, '/a', 'KA', v], ['export-badpath', 0, '/a/bc', '/a/bc/', v], ['again', 0, 3], ['unexport', 1, '/a/b'],
+            ['again', 1, 4]]
+    for handlers in (['h', 'h'], ['h', 'c']):
+        for fresh, variant, first in ((False, 0, None), (True, 1, ['Base', 'KAB']), (True, 2, ['KAB', 'Base'])):
+            out.append(handlers_hist(uni, ops, handlers, fresh=fresh, variant=variant, first=first))
+            out.append(handlers_hist(uni, ops2, handlers, fresh=fresh, variant=variant, first=first))
+    return out
+
+
+def enumerated_handlers(max_len):
+    """All interleavings up to max_len of a small alphabet on TWO handlers over `/a/b`, `/a/bc` (exports, unexports,
+    the first instance again, a raising export)."""
+    uni = ['/a/b', '/a/bc']
+    v = dict(_VALS)
+    alphabet = []
+    for k in (0, 1):
+        alphabet += [['export', k, '/a/b', 'KAB', v], ['export', k, '/a/bc', 'KA', v], ['unexport', k, '/a/b'],
+                     ['again', k, 1], ['export-raising', k, '/a/bc', v, 1]]
+
+    def rec(prefix, n):
+        if n == 0:
+            yield list(prefix)
+            return
+        for op in alphabet:
+            prefix.append(op)
+            yield from rec(prefix, n - 1)
+            prefix.pop()
+    for n in range(1, max_len + 1):
+        for ops in rec([], n):
+            h = handlers_hist(uni, ops, ['h', 'h'])
+            h['neighbours'] = ['/', '/a']
+            yield h
 
 
 # =========================================================================== stream `managed-values`
@@ -1085,14 +1360,19 @@ CHAINS = {
         'small': (Q_M, 'small', 'y', True, True), 'shape': (Q_M, 'shape', 'g', True, False),
         'name_n': (Q_N, 'name', 's', True, False), 'size_n': (Q_N, 'size', 'i', True, True)},
 }
-CHAIN_IFACES = {0: [P_B, P_C, P_A, P_PROPS], 1: [Q_N, Q_M, P_PROPS]}
+# chains 2 and 3: instances of the BASE classes themselves (PBase, QBase) - what they declare, nothing of the derived class
+CHAINS[2] = {a: CHAINS[0][a] for a in ('label', 'secret')}
+CHAINS[3] = {a: CHAINS[1][a] for a in ('name', 'size', 'where', 'tags', 'any', 'ratio')}
+CHAIN_IFACES = {0: [P_B, P_C, P_A, P_PROPS], 1: [Q_N, Q_M, P_PROPS], 2: [P_A, P_PROPS], 3: [Q_M, P_PROPS]}
+BASE_OF = {0: 2, 1: 3}
 _PCLS = {}
 
 
-def pclasses():
+def pclasses(fresh=False):
+    """chain id -> class.  fresh: NEW classes (and descriptors); otherwise the process-wide ones, used case after case."""
     import txdbus
     key = txdbus.__file__
-    if key in _PCLS:
+    if key in _PCLS and not fresh:
         return _PCLS[key]
     from txdbus import objects
     from txdbus.interface import DBusInterface, Method, Property
@@ -1135,8 +1415,10 @@ def pclasses():
         name_n = objects.DBusProperty('name', Q_N)     # the same property name on another interface
         size_n = objects.DBusProperty('size', Q_N)
 
-    _PCLS[key] = {0: PDer, 1: QDer}
-    return _PCLS[key]
+    out = {0: PDer, 1: QDer, 2: PBase, 3: QBase}
+    if not fresh:
+        _PCLS[key] = out
+    return out
 
 
 def p_decl_lines():
@@ -1159,6 +1441,18 @@ def p_decl_lines():
             desc('name', 'name', Q_M), desc('small', 'small', None), desc('shape', 'shape', None),
             desc('name_n', 'name', Q_N), desc('size_n', 'size', Q_N),
             'pclass',
+            'piface %s %s' % (hx(Q_M), ' '.join([prop('name', 's', 1, 1), prop('size', 't', 1, 0), prop('where', 'o', 1, 0),
+                                                 prop('tags', 'as', 1, 1), prop('any', 'v', 1, 1), prop('ratio', 'd', 1, 0),
+                                                 prop('small', 'y', 1, 1), prop('shape', 'g', 1, 0)])),
+            desc('name', 'name', Q_M), desc('size', 'size', Q_M), desc('where', 'where', None), desc('tags', 'tags', None),
+            desc('any', 'any', None), desc('ratio', 'ratio', None),
+            'pbind',
+            # the base classes on their own
+            'pworld 2', 'pclass',
+            'piface %s %s %s %s' % (hx(P_A), prop('label', 's', 1, 0), prop('secret', 'i', 0, 1), prop('level', 'i', 1, 1)),
+            desc('label', 'label', None), desc('secret', 'secret', P_A),
+            'pbind',
+            'pworld 3', 'pclass',
             'piface %s %s' % (hx(Q_M), ' '.join([prop('name', 's', 1, 1), prop('size', 't', 1, 0), prop('where', 'o', 1, 0),
                                                  prop('tags', 'as', 1, 1), prop('any', 'v', 1, 1), prop('ratio', 'd', 1, 0),
                                                  prop('small', 'y', 1, 1), prop('shape', 'g', 1, 0)])),
@@ -1372,11 +1666,14 @@ SET_SHAPES = {0: [(P_A, 'level', [5, -7, 0, 11]), (P_A, 'level', ['zz']), (P_A, 
               1: [(Q_M, 'name', ['set', 'again']), (Q_N, 'name', ['no']), (Q_N, 'size', [4, -4]), (Q_M, 'size', [9]),
                   (Q_M, 'small', [9, 300]), (Q_M, 'tags', [['s', 't']]), (Q_M, 'any', [77, 'str', False]), ('', 'small', [1]),
                   (Q_M, 'nope', [1])]}
+SET_SHAPES[2] = SET_SHAPES[0]       # a base-class instance is asked for the derived class's properties as well
+SET_SHAPES[3] = SET_SHAPES[1]
 
 
-def gen_values_history(rng, universe, length):
+def gen_values_history(rng, universe, length, order=None):
     """ops: ['make', n, chain, path] ['assign', n, attr, v] ['export', n] ['unexport', path]
-    ['set', path, iface, pname, v]"""
+    ['set', path, iface, pname, v].  order = (derived chain, 'base-first' | 'derived-first'): the history begins with
+    the first instances of that (base, derived) class pair, in that order."""
     ops, made, live, cur = [], {}, {}, {}
     nxt = [0]
 
@@ -1406,11 +1703,16 @@ def gen_values_history(rng, universe, length):
         export(n)
         return n
 
+    if order is not None:
+        der, which = order
+        pair = [BASE_OF[der], der] if which == 'base-first' else [der, BASE_OF[der]]
+        for c in pair:
+            make(rng.choice(universe), c, bad=0, unset=0)
     for _ in range(length):
         r = rng.random()
         if not made or r < 0.22:
             # a free path, or (re-export over a live path with an instance of possibly ANOTHER class) a live one
-            make(rng.choice(universe), rng.choice([0, 0, 1]))
+            make(rng.choice(universe), rng.choice([0, 0, 0, 1, 1, 2, 3]))
         elif r < 0.42:
             n = rng.choice(sorted(made))
             attr = rng.choice(sorted(CHAINS[made[n][0]]))
@@ -1424,7 +1726,7 @@ def gen_values_history(rng, universe, length):
             live.pop(p, None)
         else:
             path = rng.choice(sorted(live)) if live and rng.random() < 0.85 else rng.choice(universe)
-            chain = made[live[path]][0] if path in live else rng.choice([0, 1])
+            chain = made[live[path]][0] if path in live else rng.choice([0, 1, 2, 3])
             iface, pn, vs = rng.choice(SET_SHAPES[chain])
             v = rng.choice(vs)
             ops.append(['set', path, iface, pn, v])
@@ -1447,7 +1749,7 @@ def gen_values_history(rng, universe, length):
 
 def run_values_history(ctx, hist, lines, expect):
     from txdbus import objects, message
-    clss = pclasses()
+    clss = pclasses(fresh=bool(hist.get('fresh')))
     conn = FakeConn()
     h = objects.DBusObjectHandler(conn)
     insts, chain_of, cur, exported = {}, {}, {}, {}
@@ -1471,7 +1773,7 @@ def run_values_history(ctx, hist, lines, expect):
         below = {q: m for q, m in exported.items() if strictly_below(path, q)}
         if not all(p_sendable(cur, m, chain_of[m]) for m in below.values()):
             return                      # a value that cannot be sent beneath: the statement is silent (Error.Failed, D4)
-        inp = {'universe': universe, 'ops': hist['ops'][:step_no], 'query': ['managed', path]}
+        inp = case_input(hist, step_no, ['managed', path])
         want = {q: p_expected(cur, m, chain_of[m]) for q, m in below.items()}
         if reply_d is None:
             ctx.violation('managed-objects-fails', 'GetManagedObjects on an exported path is not answered with the objects',
@@ -1534,7 +1836,7 @@ def run_values_history(ctx, hist, lines, expect):
             lines.append('pexport %d' % n)
             expect.append((hist, step_no, ['export'], line))
             ctx.stat('values-op=export' + ('' if ok else '-unsendable') + ('-over-live' if path in exported else ''))
-            inp = {'universe': universe, 'ops': hist['ops'][:step_no], 'query': ['signals']}
+            inp = case_input(hist, step_no, ['signals'])
             if ok:
                 exported[path] = n
                 good = exc is None and sig and body[0] == path
@@ -1641,8 +1943,10 @@ def run_values_history(ctx, hist, lines, expect):
 def run_values(ctx, hists):
     lines, expect = [], []
     for hist in hists:
+        log_case('values', 'managed-values', hist)
         run_values_history(ctx, hist, lines, expect)
         ctx.case('managed-values', sample=hist, nontrivial=any(o[0] == 'export' for o in hist['ops']))
+        ctx.stat('values-family=%s' % ('fresh' if hist.get('fresh') else 'process-wide'))
     out = ctx.model(lines)
     if out is None:
         return
@@ -1657,7 +1961,7 @@ def run_values(ctx, hists):
             if key in seen:
                 continue
             seen.add(key)
-            ctx.disagree('managed-values', {'universe': hist['universe'], 'ops': hist['ops'][:step_no], 'query': what}, m, impl)
+            ctx.disagree('managed-values', case_input(hist, step_no, what), m, impl)
 
 
 VALUES_UNIVERSE = ['/', '/a', '/a/b', '/a/bc', '/a/b/c', '/b']
@@ -1700,6 +2004,32 @@ def run(ctx):
     max_len = 2 if ctx.tier == 'quick' and not ctx.widen else 3
     run_batch(ctx, 'history-enumerated', list(enumerated(max_len)))
 
+    # ---- several handlers alive in one scenario, the same instances on several of them, failing exports in between
+    hs = scripted_handlers()
+    n = ctx.scale(quick=20, thorough=200)
+    for i in range(n):
+        base = FIXED_UNIVERSE if i % 2 == 0 else FIXED_UNIVERSE_2
+        uni = sorted(set(rng.sample(base, rng.randrange(3, 7)) + (['/'] if i % 3 == 0 else [])))
+        nh = 3 if i % 4 == 3 else 2
+        handlers = ['h'] * nh
+        if i % 5 == 0:
+            handlers[-1] = 'c'
+        ops = gen_handlers_history(rng, uni, rng.randrange(6, 20), nh)
+        if i % 2 == 0:
+            hs.append(handlers_hist(uni, ops, handlers, rng))                  # the process-wide classes
+        else:
+            # the SAME calls on two fresh class families, a (base, derived) pair first used in either order
+            b, d = rng.choice(FAMILY_PAIRS)
+            va = rng.randrange(0, 4)
+            nb = handlers_hist(uni, ops, handlers, rng)['neighbours']
+            for first, variant in (([b, d], va), ([d, b], va + 1)):
+                h = handlers_hist(uni, ops, handlers, None, fresh=True, variant=variant, first=first)
+                h['neighbours'] = nb
+                hs.append(h)
+    run_handlers(ctx, 'history-handlers', hs)
+    max_len = 2 if ctx.tier == 'quick' and not ctx.widen else 3
+    run_handlers(ctx, 'history-handlers', list(enumerated_handlers(max_len)))
+
     # ---- the same through a real DBusClientConnection (exportObject / unexportObject / received bytes)
     n = ctx.scale(quick=4, thorough=30)
     hs = []
@@ -1710,22 +2040,149 @@ def run(ctx):
     run_batch(ctx, 'history-client-connection', hs, client=True)
 
     # ---- objects with declared properties: the property dicts, values included, against Obj/TreeProps.lean
-    n = ctx.scale(quick=10, thorough=100)
+    n = ctx.scale(quick=16, thorough=120)
     hs = []
     for name, case in ctx.corpus():
         if case.get('stream') == 'managed-values':
             hs.append(case['input'])
     for i in range(n):
         uni = sorted(rng.sample(VALUES_UNIVERSE, rng.randrange(3, 7)))
-        hs.append({'universe': uni, 'ops': gen_values_history(rng, uni, rng.randrange(6, 22))})
+        if i % 3 == 0:
+            hs.append({'universe': uni, 'ops': gen_values_history(rng, uni, rng.randrange(6, 22))})     # process-wide classes
+        else:
+            # NEW classes for this case; their first instances are a (base, derived) pair in a chosen order
+            order = (rng.choice([0, 1]), 'base-first' if i % 3 == 1 else 'derived-first')
+            ctx.stat('values-first=%d/%s' % order)
+            hs.append({'universe': uni, 'ops': gen_values_history(rng, uni, rng.randrange(6, 22), order), 'fresh': True})
     run_values(ctx, hs)
+    stabilise(ctx)
+
+
+# --------------------------------------------------------------------------- replays that reproduce (STATE_AUDIT M6 / G7a)
+class _Probe:
+    """A silent run context: only collects the keys of the findings."""
+    tier, widen, budget_s = 'quick', False, None
+
+    def __init__(self):
+        self.keys = set()
+
+    def violation(self, key, *a, **k):
+        self.keys.add(key)
+
+    def model(self, lines):
+        return None
+
+    def time_left(self):
+        return 1e9
+
+    def corpus(self):
+        return []
+
+    def stat(self, *a, **k):
+        pass
+
+    case = disagree = note = impl_trace = stat
+
+
+def _pristine():
+    """Forget txdbus (module-level and class-level state included) and every class built from it."""
+    import sys
+    for m in list(sys.modules):
+        if m == 'txdbus' or m.startswith('txdbus.'):
+            del sys.modules[m]
+    _CLASSES.clear()
+    _PCLS.clear()
+    _FIRST_USE.clear()
+
+
+def _run_logged(probe, entry):
+    runner, stream, hist = entry
+    hist = dict(hist)
+    if runner == 'values':
+        run_values(probe, [hist])
+    elif runner == 'handlers':
+        run_handlers(probe, stream, [hist])
+    else:
+        run_batch(probe, stream, [hist], client=(runner == 'client'))
+
+
+def _reproduces(before, inp, key):
+    """Does `key` show again when `before` (whole cases) and then `inp` run on a freshly imported txdbus?"""
+    global _RAN, _CASE_NO
+    keep = (_RAN, _CASE_NO)
+    _RAN, _CASE_NO = [], {}
+    try:
+        _pristine()
+        probe = _Probe()
+        for entry in before:
+            _run_logged(probe, entry)
+        replay(probe, {'input': inp})
+        return key in probe.keys
+    except Exception:       # noqa
+        return False
+    finally:
+        _RAN, _CASE_NO = keep
+
+
+def stabilise(ctx):
+    """All cases of a run share one Python process, so a finding may need what EARLIER cases left behind in txdbus
+    (a module-level or class-level memo); its own input, run alone, then shows nothing.  Every finding of this run is
+    therefore run again on a freshly imported txdbus; one that does not show again gets the earlier cases it needs
+    stored in front of it (`sequence`), and `replay` runs them first.  Costs nothing when there is no finding."""
+    import time
+    todo = [v for v in ctx.violations if isinstance(v.get('input'), dict) and 'sequence' not in v['input']
+            and v.get('stabilised') is not v['input']]
+    if not todo:
+        return
+    t0 = time.time()
+    try:
+        for v in todo:
+            if time.time() - t0 > 25:
+                ctx.note('replay of %s not re-checked on a fresh import (time)' % v['key'])
+                continue
+            inp = v['input']
+            if _reproduces([], inp, v['key']):
+                v['stabilised'] = inp
+                continue
+            no = inp.get('case')
+            found = False
+            back = 1
+            while no is not None and not found and time.time() - t0 <= 25:
+                before = _RAN[max(0, no - back):no]
+                if _reproduces(before, inp, v['key']):
+                    seq = [{'runner': r, 'stream': st, 'hist': {k: x for k, x in h.items()}} for r, st, h in before]
+                    v['input'] = dict(inp, sequence=seq)
+                    found = True
+                if back >= no:
+                    break
+                back *= 2
+            v['stabilised'] = v['input']
+            if not found:
+                ctx.note('the finding %s did not show again on a freshly imported txdbus, alone or after the earlier cases '
+                         'of this run: its replay may not reproduce' % v['key'])
+    finally:
+        _pristine()
 
 
 def replay(ctx, data):
     classes()
     inp = data['input']
+    for e in inp.get('sequence', []):           # the earlier cases this finding needs (see `stabilise`)
+        _run_logged(ctx, (e['runner'], e['stream'], e['hist']))
+    if 'handlers' in inp:
+        h = make_hist(inp['universe'], inp['ops'])
+        for k in ('handlers', 'fresh', 'variant', 'first', 'warm'):
+            if k in inp:
+                h[k] = inp[k]
+        run_handlers(ctx, 'history-handlers', [h])
+        return
     if inp['ops'] and inp['ops'][0][0] == 'make':
-        run_values(ctx, [{'universe': inp['universe'], 'ops': inp['ops']}])
+        h = {'universe': inp['universe'], 'ops': inp['ops']}
+        if inp.get('fresh'):
+            h['fresh'] = True
+        run_values(ctx, [h])
         return
     hist = make_hist(inp['universe'], inp['ops'])
+    if inp.get('warm'):
+        hist['warm'] = inp['warm']
     run_batch(ctx, 'history-fixed-universe', [hist])
